@@ -11,7 +11,7 @@
 (*     (a gap stands for any number of lost reports; dt = 0 with the same   *)
 (*     parity is a duplicate);                                              *)
 (*   * delivery may swap two consecutive reports (Hold / Flush) when their  *)
-(*     timestamps differ by at most SwapMax;                                *)
+(*     timestamps differ by at most SwapMax (0: no swaps);                  *)
 (*   * surface reports only within 40 NM of the receiver reference.         *)
 (* Invariant Safe: the answer to every delivered report is NONE or the      *)
 (* truth (TrajectoryAbs).  Attack configurations (DESIGN.md 2.3) weaken one *)
@@ -80,7 +80,7 @@ Deliver ==
        /\ Advance(rep) /\ Apply(rep)
        /\ flush' = (held # NoRep) /\ UNCHANGED held
 Hold ==
-  /\ ~flush /\ held = NoRep /\ nrep + 2 <= MaxReports
+  /\ SwapMax > 0 /\ ~flush /\ held = NoRep /\ nrep + 2 <= MaxReports
   /\ \E a \in Aircraft, dt \in DTs, dir \in Dirs, par \in {0, 1}, kind \in {"air", "surf"} :
        LET rep == Emitted(a, dt, dir, par, kind) IN
        /\ Physical(rep, a, dir)
